@@ -1,5 +1,5 @@
 #!/usr/bin/env python3
-"""mutbattery — twelve one-line source mutations (one per source-driven tie and a few differential streams), each applied to a scratch
+"""mutbattery — thirteen one-line source mutations (one per source-driven tie and a few differential streams), each applied to a scratch
 worktree of /repo and run through the registered quick check of a scratch copy of the COMMITTED /verif: every line must say exit 1.
 A guard against translators that were generalised into blindness.  (/repo and /verif are not touched.)"""
 import subprocess, sys, os, shutil, tempfile, json
@@ -17,7 +17,7 @@ MUTS = [
  ("C02","torcheval/metrics/synclib.py","sorted(","list("),
  ("C01","torcheval/metrics/regression/mean_squared_error.py","self.sum_weight += metric.sum_weight.to(self.device)","self.sum_weight += 0 * metric.sum_weight.to(self.device)"),
  # a precision-losing cast the exact-arithmetic kernel terms read as the identity: only the low-precision stream of C06 can see it
- ("C06","torcheval/metrics/functional/classification/binned_precision_recall_curve.py","    labels = input >= threshold[:, None, None]","    labels = input >= threshold.to(input.dtype)[:, None, None]"),
+ ("C06","torcheval/metrics/functional/classification/binned_precision_recall_curve.py","    labels = input >= threshold[:, None, None]","    labels = input >= threshold.to(input.dtype)[:, None, None]"), ("C08","torcheval/metrics/functional/ranking/hit_rate.py","    y_score = torch.gather(input, dim=-1, index=target.unsqueeze(dim=-1))","    input = input.float()\n    y_score = torch.gather(input, dim=-1, index=target.unsqueeze(dim=-1))"),
 ]
 def run(i):
     prop,f,old,new = MUTS[i]
